@@ -66,11 +66,16 @@ def run_group(pid, g, tier, seed, known, rep_dir):
             kf = match_known(known, fn, v)
             rp = os.path.join(rep_dir, '%s.%s.json' % (fn, hashlib.sha1(v['label'].encode()).hexdigest()[:8]))
             conf = None
-            try: conf = RP.replay(g.file, g.setup + [fn], model, seed=seed, omp=g.omp, timeout=(20 if v['label'].startswith('monitor:hang') else 120))
+            try: conf = None if v['label'].startswith('race:') else RP.replay(g.file, g.setup + [fn], model, seed=seed, omp=g.omp, timeout=(20 if v['label'].startswith('monitor:hang') else 120))
             except SystemExit: conf = {'error': 'native build failed'}
             except BaseException as ex: conf = {'error': str(ex)[:500]}
             reproduced = False
-            if conf and 'error' not in conf:
+            if v['label'].startswith('race:'):
+                # a data race is not observable in one native run under ASan/UBSan: confirmed by re-executing the IR concretely on the model's inputs
+                # (the access sets of the logical threads are deterministic) and reported on that basis
+                conf = {'concrete_ir_rerun': concrete_races(ses, fn, model, seed)}
+                reproduced = bool(conf['concrete_ir_rerun'])
+            elif conf and 'error' not in conf:
                 if v['label'].startswith('monitor:'): reproduced = bool(conf.get('crash'))
                 else: reproduced = v['label'] in conf.get('failed', []) or bool(conf.get('crash'))
             rec = {'property': pid, 'harness': fn, 'file': 'harness/' + g.file, 'setup': g.setup, 'label': v['label'], 'msg': v.get('msg'), 'inputs': model,
@@ -197,6 +202,24 @@ def match_known(known, fn, v):
     for k in known:
         if k.get('harness') == fn and k.get('label') == v['label']: return k
     return None
+
+def concrete_races(ses, fn, model, seed):
+    I = ses.I
+    r, w = os.pipe(); pid = os.fork()
+    if pid == 0:
+        os.close(r)
+        try:
+            I.m.reopen(); I.inputs = RP.DefaultInputs(seed, model); I.ext['concrete_irrational'] = 'host'
+            EX.run_path(I, fn, [], 300)
+            data = json.dumps(I.ext.get('races') or []).encode()
+        except BaseException as ex: data = b'[]'
+        with os.fdopen(w, 'wb') as f: f.write(data)
+        os._exit(0)
+    os.close(w)
+    with os.fdopen(r, 'rb') as f: data = f.read()
+    os.waitpid(pid, 0)
+    try: return json.loads(data.decode())[:3]
+    except Exception: return []
 
 def differential(ses, g, fn, K, seed):
     """run harness fn on K concrete inputs both in the interpreter and natively; compare verif_out_* values"""
